@@ -423,6 +423,21 @@ retry:
 
 // fetchBlock fetches an item into the datastore at c if not locally available.
 func (s *Syncer) fetchBlock(ctx context.Context, c cid.Cid) error {
+	// The link system verifies a stored block with the fixed-size hasher of
+	// the CID's hash function. A digest longer than that hasher produces
+	// (possible for functions with extendable output) cannot be verified
+	// there: refuse it here, with an error, instead of storing a block that
+	// the link system then cannot load.
+	if pfx := c.Prefix(); pfx.MhType != multihash.IDENTITY {
+		hasher, err := s.sync.lsys.HasherChooser(cidlink.LinkPrototype{Prefix: pfx})
+		if err != nil {
+			return fmt.Errorf("unsupported hash function in %s: %w", c, err)
+		}
+		if pfx.MhLength > hasher.Size() {
+			return fmt.Errorf("unsupported digest length %d in %s, at most %d", pfx.MhLength, c, hasher.Size())
+		}
+	}
+
 	n, err := s.sync.lsys.Load(ipld.LinkContext{Ctx: ctx}, cidlink.Link{Cid: c}, basicnode.Prototype.Any)
 	// node is already present.
 	if n != nil && err == nil {
